@@ -56,6 +56,20 @@ def main(tier, seed):
                   ("asan-extra-ndebug", {"defs": ["EAV_EXTRA", "NDEBUG"]}, True)], rule="", extra_jobs=extra_jobs(tier, seed),
         assumptions=["'syntactically invalid' = the composition of the per-part validators (tld off) rejects",
                      "domain not FQDN / TLD errors are not syntax errors (flags may stay set there)"])
+    # the record of the *second* of two different addresses validated back to back on one object (near-duplicates, digest collisions;
+    # generator and trace monitor of C13, EAV_EXTRA build: lpart / domain belong to the address just validated)
+    from . import c13
+    from .. import histmon as HM
+    hexe = cx.exe("asan-hist-extra", driver=("drv/hist.c",), defs=["EAV_EXTRA"])
+    dup = c13.near_duplicate_pool()
+    dprogs = []
+    for i in range(0, len(dup), 2):
+        for m in (3, 0):
+            for t in ("t1", "t0"):
+                dprogs.append(["r%d" % m, "s", t, "e%d" % i, "e%d" % (i + 1), "e%d" % i, "e%d" % i, "e%d" % (i + 1)])
+    part = c13.w_hist(hexe, dup, dprogs, True, "back-to-back")
+    rep.merge({"counters": {"back-to-back." + k: v for k, v in part["counters"].items()},
+               "viol": [("back-to-back/" + v[0],) + tuple(v[1:]) for v in part["viol"]], "samples": [], "distinct": 0})
     c = rep.counters
     rep.require(not (not c["extra.records"]), "EAV_EXTRA build produced no records")
     return rep.finish(c["records"], rep.distinct_count,
